@@ -11,13 +11,16 @@
 (* chunk segment, index, meta.json (block.Upload) and record; at the end   *)
 (* write the shipper file; return an error if an upload failed.  Without   *)
 (* allow-out-of-order-uploads the first failed upload returns at once      *)
-(* (file not written); with it the loop goes on.  (The overlap check of    *)
-(* compacted blocks is not modelled: blocks do not overlap here.)          *)
+(* (file not written); with it the loop goes on.  Before a compacted block *)
+(* is uploaded without allow-out-of-order-uploads, the overlap checker     *)
+(* reads the meta.json of EVERY block directory in the bucket; a directory *)
+(* without meta.json (a partial upload) makes it fail and Sync return the  *)
+(* error (blocks never overlap here, so that is its only modelled effect). *)
 (***************************************************************************)
 EXTENDS BlockLifecycle, TLC, Json, IOUtils, SequencesExt
 CONSTANTS N,            \* local blocks 1..N (1 = oldest)
           MaxCrashes, MaxFails,
-          CaseN, CaseCrashes, CasePre  \* leg B: blocks / crash points / pre-states per generated case
+          CaseN, CaseCrashes, CasePre, CaseKinds  \* leg B: blocks / crash points / pre-states / kinds per generated case
 
 Blocks == 1..N
 SegO(b) == [b |-> b, f |-> "chunks/000001", s |-> 11]
@@ -61,8 +64,14 @@ Loop == /\ pc = "loop" /\ i <= N
 
 Exists == /\ pc = "exists"
           /\ IF MetaO(i) \in bkt THEN upl' = upl \cup {i} /\ i' = i + 1 /\ pc' = "loop"
-             ELSE pc' = "up_seg" /\ UNCHANGED <<i, upl>>
+             ELSE pc' = (IF kind[i] = "L2" /\ ~ooo THEN "overlap" ELSE "up_seg") /\ UNCHANGED <<i, upl>>
           /\ UNCHANGED <<bkt, file, has, uerrs, last, crashes, fails, everComplete>> /\ Const
+
+(* lazyOverlapChecker.sync: DownloadMeta of every block directory; a partial directory fails the sync *)
+PartialDirs(bk) == { b \in BlocksIn(bk) : MetaO(b) \notin bk }
+Overlap == /\ pc = "overlap"
+           /\ IF PartialDirs(bkt) # {} THEN pc' = "idle" /\ last' = "err" ELSE pc' = "up_seg" /\ UNCHANGED last
+           /\ UNCHANGED <<bkt, file, i, has, upl, uerrs, crashes, fails, everComplete>> /\ Const
 
 Put(o) == /\ bkt' = { x \in bkt : ~(x.b = o.b /\ x.f = o.f) } \cup {o}
           /\ everComplete' = Seen({ x \in bkt : ~(x.b = o.b /\ x.f = o.f) } \cup {o})
@@ -91,7 +100,7 @@ Crash == /\ crashes < MaxCrashes /\ pc # "idle"
          /\ i' = 0 /\ has' = {} /\ upl' = {} /\ uerrs' = 0
          /\ UNCHANGED <<bkt, file, fails, everComplete>> /\ Const
 
-Step == SyncStart \/ Loop \/ Exists \/ UpSeg \/ UpIdx \/ UpMeta \/ WriteFile
+Step == SyncStart \/ Loop \/ Exists \/ Overlap \/ UpSeg \/ UpIdx \/ UpMeta \/ WriteFile
 Next == Step \/ Fail \/ Crash
 Spec == Init /\ [][Next]_vars /\ WF_vars(Step)
 
@@ -100,12 +109,18 @@ C35_RecordedWereSeenComplete == C35_RecordedUnseen(file.uploaded, everComplete) 
 C35_SuccessfulSyncShippedAll ==
     (last = "ok" /\ pc = "idle") => C35_NotShipped(Locals, uc, bkt, ListedNow(bkt), {}, {}) = {}
 C28_Holds == C28_Incomplete(bkt, ListedNow(bkt)) = {}
-(* once crashes and failures are used up, a sync succeeds *)
-EventuallyShipped == <>(last = "ok" /\ pc = "idle")
+(* Once crashes and failures are used up a sync succeeds - unless the shipper is wedged: a partial  *)
+(* upload left in the bucket makes the overlap check of a compacted block fail in every sync.     *)
+(* (Not part of the statement of C35, which only speaks about successful syncs; TLC found the     *)
+(* wedge as a counterexample to the unconditional form.  See notes/C35.md.)                       *)
+Wedged == /\ ~ooo /\ uc /\ PartialDirs(bkt) # {}
+          /\ \E b \in Blocks : kind[b] = "L2" /\ MetaO(b) \notin bkt /\ b \notin file.uploaded
+          /\ \A b \in Blocks : (kind[b] = "L1" /\ MetaO(b) \notin bkt) => \E c \in Blocks : c < b /\ kind[c] = "L2" /\ MetaO(c) \notin bkt
+EventuallyShipped == <>(last = "ok" /\ pc = "idle") \/ <>[]Wedged
 
 (* ---- leg B ---- *)
 CasesFile == IF "VERIF_CASES" \in DOMAIN IOEnv THEN IOEnv.VERIF_CASES ELSE "cases.ndjson"
-BlockOpts == { [kind |-> k, pre |-> p] : k \in Kinds, p \in CasePre }
+BlockOpts == { [kind |-> k, pre |-> p] : k \in CaseKinds, p \in CasePre }
 BlockSeqs == UNION { [1..n -> BlockOpts] : n \in 1..CaseN }
 CrashSeqs(n) == UNION { [1..k -> 1..(3 * n)] : k \in 0..CaseCrashes }
 CaseSet == UNION { { [blocks |-> bs, uc |-> u, ooo |-> o, crashes |-> cr] : u \in BOOLEAN, o \in BOOLEAN, cr \in CrashSeqs(Len(bs)) } : bs \in BlockSeqs }
